@@ -26,9 +26,12 @@ LEAN_TARGETS = ["SpecVerif.Props.C02"]
 AUDIT = [("SpecVerif.Props.C02", "SpecVerif.Props.C02")]
 DRIVER = "Drivers/Heap.lean"
 REQUIRED_THEOREMS = [
+    "SpecVerif.Props.C02.deepcopy_disjoint",
     "SpecVerif.Props.C02.deepcopy_disjoint_nodnc",
     "SpecVerif.Props.C02.dnc_by_identity",
     "SpecVerif.Props.C02.no_visible_change",
+    "SpecVerif.Props.C02.result_disjoint",
+    "SpecVerif.Props.C02.result_fresh",
 ]
 RULE = (
     "case = class table (see C01; 30% of the collection/nested attributes do_not_copy, 10% a do_not_copy=True nested "
@@ -46,7 +49,12 @@ ASSUMPTIONS = [
     "(DESIGN.md section 10 item 11); update()/transform() without keywords return the receiver itself (item 1)",
     "bool values are not generated (Python identifies True with 1)",
 ]
-OPEN_STATEMENTS = []
+OPEN_STATEMENTS = [
+    "result_disjoint_Full (Props/C02.lean) is the statement WITHOUT the side conditions and is false in model and code "
+    "for documented reasons (update()/transform() without keywords return the receiver; a transform such as list(v) "
+    "re-uses the receiver's items): kept as a record; result_disjoint proves it for every other operation "
+    "(Op.cowCovered) and callbacks that return scalars or their argument (Cb.plain)",
+]
 EXHAUSTIVE = {"quick": False, "thorough": False}
 
 PROFILE = {
@@ -59,7 +67,7 @@ PROFILE = {
     "p_bad": 0.06,
     "p_raw": 0.25,
     "n_ops": (5, 14),
-    "w": {"copy": 3, "nested_set": 4, "alias": 3, "with": 5, "updattr": 3, "trattr": 3, "update": 4, "reset": 2, "resetattr": 3},
+    "w": {"copy": 3, "nested_set": 4, "alias": 5, "with": 5, "updattr": 3, "trattr": 3, "update": 4, "reset": 2, "resetattr": 3},
 }
 
 
@@ -112,7 +120,7 @@ def oracle(case):
     def hand_in(world, toks):
         for t in H.op_arg_toks(toks):
             try:
-                H.reachable_ids(world.resolve(t), handed)
+                handed.update(H.reachable_ids(world.resolve(t)))
             except (LookupError, ValueError):
                 pass
 
@@ -159,8 +167,14 @@ def oracle(case):
         is_copy = (name in H.COW_OPS and ip is False) or name == "copy"
         if not is_copy or not hasattr(type(res), "__spec_class__"):
             return
-        # (i) identity-graph intersection
+        # (i) identity-graph intersection; "handed in by the caller" = the argument
+        # objects and whatever they reach before or after the call
         allowed = dict(call_args)
+        for t in H.op_arg_toks(toks):
+            try:
+                allowed.update(H.reachable_ids(world.resolve(t)))
+            except (LookupError, ValueError):
+                pass
         H.dnc_held_ids(recv, allowed)
         r_ids = H.mutable_ids(res, _is_frozen_inst)
         s_ids = H.mutable_ids(recv, _is_frozen_inst)
@@ -209,7 +223,7 @@ def oracle(case):
             for t in toks[3:]:
                 if t.startswith("@"):
                     try:
-                        H.reachable_ids(world.resolve(t), handed)
+                        handed.update(H.reachable_ids(world.resolve(t)))
                     except (LookupError, ValueError):
                         pass
             before = others_snapshot(world, root)
@@ -228,7 +242,7 @@ def oracle(case):
 KNOWN_MATCHERS = {}
 
 MANIFEST_ENTRY = {
-    "level_text": "Lean 4 proof, over the heap model with object identities, that deepcopy (with memo, attribute- and class-level do_not_copy, __post_copy__) returns an object from which no pre-existing object is reachable except through do_not_copy attributes, which are carried by identity, and that an in-place write to an object a value cannot reach is invisible through that value (so mutating the copy or the original is never visible through the other); copy-on-write helpers are covered by the frame theorem of C01 plus the partial result_disjoint statements listed in docs/C02.md; tied to /repo on every run by executing generated histories (aliasing inside the receiver, every helper, then in-place mutations of either side) on the real spec_classes and on the model and comparing contents and the alias pattern of all live objects after every step.",
+    "level_text": "Lean 4 proof, over the heap model with object identities, that deepcopy (with memo, attribute- and class-level do_not_copy, __post_copy__) returns an object from which no pre-existing object is reachable except through do_not_copy attributes, which are carried by identity, and that an in-place write to an object a value cannot reach is invisible through that value (so mutating the copy or the original is never visible through the other); and that the result of every copy-on-write helper, the constructor and deepcopy is a new object from which only objects handed in as arguments or held by do_not_copy attributes are reachable among the pre-existing ones (for callbacks returning scalars or their argument); tied to /repo on every run by executing generated histories (aliasing inside the receiver, every helper, then in-place mutations of either side) on the real spec_classes and on the model and comparing contents and the alias pattern of all live objects after every step.",
     "level_note": "Trusted: Lean kernel; axioms propext/Classical.choice/Quot.sound only; the hand-written heap model and the correspondence harness; callbacks return new objects, scalars or their argument. Sharing of caller-provided arguments, do_not_copy attributes and frozen nested instances is allowed by the property. The theorems are about the model; the per-run correspondence (alias pattern) ties them to the code.",
     "technique": "Lean 4 reachability/provenance theorems over a hand-written heap model; differential correspondence of alias patterns against the real helpers",
 }
